@@ -25,6 +25,11 @@ const (
 	errorInvalidBulkStringDelim  = "invalid bulk string ending delimiter %s"
 )
 
+const (
+	errorTooLargeBulkStringLength = "too large bulk string length (%d > %d)"
+	errorTooLargeArraySize        = "too large array size (%d > %d)"
+)
+
 // ErrEOM is the error returned by Array::Next() when no more message is available.
 var ErrEOM = errors.New("EOM")
 
